@@ -960,6 +960,6 @@ THEOREMS = THEOREMS + [P + t for t in [
     "Obj.rejectsW", "PDesc.ofObjValue_okW", "PDesc.ofObjDefault_okW", "PDesc.ofValue_okW", "DDesc.struct_okW",
     "DDesc.staticField_okW", "DDesc.dynLenField_okW", "DDesc.eopField_okW", "DDesc.mux_okW",
     # STRUCTURE with BYTE-SIZE, LEADING-LENGTH leaf over A_BYTEFIELD, round-6 kinds outside the value-free class
-    "DDesc.structBS_okW", "DDesc.structO_okW", "PDesc.ofLeadBytes_okW", "PDesc.ofLeadStr_okW", "encodeParam_leadStr_rej", "PDesc.ofMinMaxLastBytes_okW", "encodeParam_minmaxBytes_rej",
+    "DDesc.structBS_okW", "DDesc.structO_okW", "PDesc.ofLeadBytes_okW", "PDesc.ofLeadStr_okW", "encodeParam_leadStr_rej", "PDesc.ofMinMaxLastBytes_okW", "PDesc.ofMinMaxLastStr_okW", "encodeParam_minmaxStr_rej", "minmax_rest_rej", "encodeParam_minmaxBytes_rej",
     "encodeParam_matchingReq_rej",
     "C04_endmarker_collision_counterexample"]]
